@@ -61,7 +61,7 @@ TEXT = {
          "Reaction lists with planted equivalence classes (permutations, repeated species, window/type-only differences, mixed spellings) are checked in all four modes against a pairwise reference; removal must leave one representative per class.",
          "string modes compare names, default/brief compare chemical identity; UNKNOWN-typed reactions excluded (non-transitive equality)"),
  "C19": ("fault injection: scripted mock integrator driving the real generated Solve/HandleError under ASan",
-         "The generated naunet.cpp is linked with a scripted mock CVODE/Odeint whose solution is linear in t, so integrated time is read off the state; integrator outcomes (recoverable, reset, unrecoverable flags, warnings, failing re-initialisation, step-budget overruns, integrator exceptions) are enumerated at every call position of the recovery ladder with partial progress; success must mean exactly dt integrated, failure must log the initial state.",
+         "The generated naunet.cpp is linked with a scripted mock CVODE/Odeint whose solution is linear in t, so integrated time is read off the state; integrator outcomes (recoverable, reset, unrecoverable flags, warnings, failing re-initialisation, step-budget overruns, integrator exceptions) are enumerated at every call position of the recovery ladder with partial progress; success must mean exactly dt integrated, failure must log the initial state. The cusparse method's Solve (no ladder, one CVode call per stream) runs under a CPU emulation of the CUDA surface with the same mock.",
          "mock follows the documented CVODE/Odeint return protocol incl. CV_TOO_CLOSE/ILL_INPUT input checks; exhaustive only to the stated script depth"),
  "C04": ("runtime monitoring: conservation monitor over compiled ydot with injected rate coefficients",
          "Networks balanced by construction are rendered and executed; rate coefficients of arbitrary sign/magnitude are injected at the EvalRates seam and count-weighted sums of the compiled derivatives are checked to vanish relative to the sum of absolute terms; GetElementAbund is compared with the count-weighted abundance sum.",
